@@ -137,6 +137,12 @@ func main() {
 	run := ev.Start("C27")
 	depth := run.Pick(4, 5)
 	firstRound = 104 - depth // blocks of a history of depth-1 end at round 102 and those of a full history at 103: the production prune (version 100) fires
+	// part "young": the same histories on a YOUNG chain (rounds 1..depth): the production prune walks
+	// its ring of finalized blocks back to the start of the chain and must then prune nothing
+	if (len(os.Args) > 3 && os.Args[3] == "young") || os.Getenv("VERIF_C27_YOUNG") != "" {
+		os.Setenv("VERIF_C27_YOUNG", "1") // inherited by the worker processes
+		firstRound = 1
+	}
 	acts := alphabet(run.Thorough())
 	if os.Getenv("VERIF_SHARD") == "" {
 		parent(run, depth, acts)
